@@ -117,7 +117,7 @@ def run(ctx, model=None):
     for k in range(N):
         r = k % 5
         if r in (0, 1):
-            g = gen.stopping_game(rng)
+            g = gen.stopping_game(rng, extra_finals=0.25)
         elif r in (2, 3):
             g = gen.free_game(rng)
         else:
@@ -125,9 +125,19 @@ def run(ctx, model=None):
         check_case(ctx, g, model)
         if ctx.time_left() < 0:
             return
+    # deep corridors numbered towards the goal (one more state settles per sweep) and very slowly
+    # mixing cycles: thousands of sweeps
+    from props.c06 import chain_game
+    for n in ([1200] if ctx.quick() else [1200, 2500, 5000]):
+        check_case(ctx, chain_game(n, rng), model if n <= 1200 else None, exact_ok=False)
+    for gam in ([Fr(999, 1000)] if ctx.quick() else [Fr(999, 1000), Fr(9999, 10000)]):
+        r_ = (1 - gam) / 2
+        g = gen.finish([0, 0, 0], [PR, PR, PR], [[(gam, 0), (r_, 1), (r_, 2)], [(Fr(1), 1)], [(Fr(1), 2)]], [1],
+                       {"family": "slow_cycle", "gamma": str(gam)})
+        check_case(ctx, g, model)
     # thresholds
     for k in range(20 if ctx.quick() else 300):
-        g = gen.stopping_game(rng)
+        g = gen.stopping_game(rng, extra_finals=0.25)
         check_case(ctx, g, model, thr=10 ** (-rng.choice([1, 2, 3, 4, 5, 7, 8, 9])))
     # boards (no exact values: far too many strategy profiles)
     shapes = [(1, 1), (2, 1), (1, 3), (2, 2), (3, 3)] if ctx.quick() else \
